@@ -40,6 +40,7 @@ type Plan struct {
 	Linger       bool `json:"linger,omitempty"`         // after N values keep the channel open until ctx is done
 	IgnoreCtx    bool `json:"ignore_ctx,omitempty"`     // the stream handler never looks at its context (keeps sending / lingering)
 	ElemPad      int  `json:"elem_pad,omitempty"`       // pad each stream element
+	RevBig       int  `json:"rev_big,omitempty"`        // one reverse call whose argument, and therefore the client's response, has this many bytes
 	RevStream    int  `json:"rev_stream,omitempty"`     // the handler subscribes to a stream of this many elements served by the calling client
 	RevStreamPad int  `json:"rev_stream_pad,omitempty"` // padding of every (odd) element of that stream
 	Bare         bool `json:"bare,omitempty"`           // subscribe through the method whose only result is the channel (no error result)
@@ -71,6 +72,7 @@ type tokState struct {
 	ctxErrAt  []string
 	connType  jsonrpc.ConnectionType
 	revErrs   []string
+	notes     []string
 	inReverse bool
 	startedCh chan struct{}
 }
@@ -194,6 +196,20 @@ func (w *World) RevErrs(tok string) []string {
 	return append([]string{}, w.st(tok).revErrs...)
 }
 
+// Note / Notes: free-form observations a handler leaves for the harness (the handler's own result may never arrive).
+func (w *World) Note(tok, what string) {
+	w.mu.Lock()
+	s := w.st(tok)
+	s.notes = append(s.notes, what)
+	w.mu.Unlock()
+}
+
+func (w *World) Notes(tok string) []string {
+	w.mu.Lock()
+	defer w.mu.Unlock()
+	return append([]string{}, w.st(tok).notes...)
+}
+
 func expectedEcho(tok string) string { return "res:" + tok }
 
 func padFor(tok string, n int) string {
@@ -271,6 +287,23 @@ func (a *TokAPI) body(ctx context.Context, tok string, plan Plan) (Result, error
 			continue
 		}
 		revs = append(revs, id)
+	}
+	if plan.RevBig > 0 {
+		if rc, ok := jsonrpc.ExtractReverseClient[RevClient](ctx); ok {
+			big := padFor(tok, plan.RevBig)
+			if id, err := rc.Ident(ctx, big); err != nil {
+				revs = append(revs, "!big-err")
+				a.W.Note(tok, "big-err: "+err.Error())
+			} else if !strings.HasSuffix(id, "/"+big) {
+				revs = append(revs, "!big-corrupt")
+				a.W.Note(tok, "big-corrupt")
+			} else {
+				revs = append(revs, "big-ok")
+				a.W.Note(tok, "big-ok")
+			}
+		} else {
+			revs = append(revs, "!absent")
+		}
 	}
 	if plan.RevStream > 0 {
 		if rc, ok := jsonrpc.ExtractReverseClient[RevClient](ctx); ok {
